@@ -44,7 +44,7 @@ CORE = ["ApiVersions", "Metadata", "Produce", "Fetch", "ListOffsets", "FindCoord
         "OffsetCommit", "OffsetFetch", "SaslHandshake", "SaslAuthenticate", "CreateTopics", "DeleteTopics", "InitProducerId", "AddPartitionsToTxn",
         "AddOffsetsToTxn", "EndTxn", "TxnOffsetCommit", "ListGroups", "DescribeGroups"]
 MAXVIOL = 50
-JOPTS = "-Xmx2g -Xss64m -XX:ParallelGCThreads=2 -XX:TieredStopAtLevel=4"
+JOPTS = "-Xmx2g -Xss512m -XX:ParallelGCThreads=2 -XX:TieredStopAtLevel=4"
 
 
 # ---------------------------------------------------------------------------------------------- schemas
